@@ -757,6 +757,9 @@ impl Sim {
             Action::Crash { arg } => self.do_crash(arg).await,
         };
         self.world.settle().await;
+        // the action itself is one micro step for the monitors; client polls follow as their own
+        self.record_sent();
+        self.mon.after_step(&self.world, &mut self.obs.borrow_mut());
         if self.eager {
             self.service_io().await;
         }
@@ -813,7 +816,9 @@ impl Sim {
         // one poll = one micro step for the monitors
         self.world.pump();
         self.record_sent();
+        self.mon.current_client = Some(c);
         self.mon.after_step(&self.world, &mut self.obs.borrow_mut());
+        self.mon.current_client = None;
         for m in msgs {
             match m {
                 ToClientMessage::Event(e) => {
@@ -1123,7 +1128,7 @@ impl Sim {
             if let Some(a) = action {
                 self.obs.borrow_mut().trace.push(format!("[drain] {a:?} (did not complete)"));
                 let d = self.apply(a).await;
-                *self.obs.borrow_mut().trace.last_mut().unwrap() = format!("[drain] {d}");
+                *self.obs.borrow_mut().trace.last_mut().unwrap() = format!("{step}: [drain] {d}");
                 progress = true;
             }
             // service clients and journal
@@ -1220,7 +1225,7 @@ pub fn execute(case: &SimCase) -> SimRun {
                 };
                 sim.obs.borrow_mut().trace.push(format!("{action:?} (did not complete)"));
                 let d = sim.apply(action).await;
-                *sim.obs.borrow_mut().trace.last_mut().unwrap() = d;
+                *sim.obs.borrow_mut().trace.last_mut().unwrap() = format!("{step}: {d}");
                 sim.mon.after_step(&sim.world, &mut sim.obs.borrow_mut());
                 let panicked = PANICS.with(|p| !p.borrow().is_empty());
                 if panicked {
@@ -1323,7 +1328,21 @@ pub fn outcome_for(prop: &'static str, run: &SimRun) -> Outcome {
         out.aborted = Some(format!("panic (C09) at {loc}: {msg}"));
     }
     if out.violation.is_none() {
-        if let Some(a) = obs.alarms.iter().find(|a| a.prop == prop) {
+        // prefer an alarm that is not a listed known finding, so that known findings do not
+        // hide other violations in the same history
+        static KNOWN: std::sync::OnceLock<Vec<crate::common::KnownFinding>> = std::sync::OnceLock::new();
+        let known = KNOWN.get_or_init(crate::common::load_known_findings);
+        let is_known = |sig: &str| {
+            known
+                .iter()
+                .any(|k| k.property == prop && k.status == "open" && sig.contains(&k.signature))
+        };
+        let chosen = obs
+            .alarms
+            .iter()
+            .find(|a| a.prop == prop && !is_known(&a.signature))
+            .or_else(|| obs.alarms.iter().find(|a| a.prop == prop));
+        if let Some(a) = chosen {
             out.violation = Some(Violation {
                 signature: a.signature.clone(),
                 detail: format!("step {}: {}", a.step, a.detail),
